@@ -4,8 +4,8 @@ From Coq Require Import List Arith Bool Lia.
 From Pika Require Import Base.Conc Base.Agent Model.Join.
 Import ListNotations.
 
-Ltac proj := cbn [fst snd pc prog hid cbs ran term flag req en stopreq ag bdone cbrun log
-                  w_hid w_cbs w_ran w_term w_flag w_req w_en w_stop w_ag w_bdone w_cbrun w_log] in *.
+Ltac proj := cbn [fst snd pc prog hid cbs ran term flag gen req en stopreq ag bdone cbrun log
+                  w_hid w_cbs w_ran w_term w_flag w_gen w_req w_en w_stop w_ag w_bdone w_cbrun w_log] in *.
 
 Lemma set1_same {A} (f : nat -> A) x v : set1 f x v x = v.
 Proof. unfold set1. now rewrite Nat.eqb_refl. Qed.
@@ -32,10 +32,26 @@ Proof.
 Qed.
 Lemma set1_false_true (f : nat -> bool) x a : set1 f x false a = true -> f a = true.
 Proof. unfold set1. destruct (Nat.eqb a x); congruence. Qed.
+Lemma set3_same {A} (f : nat -> nat -> nat -> A) x y z v : set3 f x y z v x y z = v.
+Proof. unfold set3. now rewrite !Nat.eqb_refl. Qed.
+Lemma set3_other {A} (f : nat -> nat -> nat -> A) x y z v a b c :
+  (a <> x \/ b <> y \/ c <> z) -> set3 f x y z v a b c = f a b c.
+Proof.
+  unfold set3. intros [H|[H|H]]; apply Nat.eqb_neq in H; rewrite H; cbn; rewrite ?andb_false_r; reflexivity.
+Qed.
+Lemma set3_true (f : nat -> nat -> nat -> bool) x y z a b c :
+  set3 f x y z true a b c = true <-> ((a = x /\ b = y /\ c = z) \/ f a b c = true).
+Proof.
+  unfold set3. destruct (Nat.eqb_spec a x), (Nat.eqb_spec b y), (Nat.eqb_spec c z); cbn; intuition congruence.
+Qed.
+Lemma set3_false_true (f : nat -> nat -> nat -> bool) x y z a b c : set3 f x y z false a b c = true -> f a b c = true.
+Proof.
+  unfold set3. destruct (Nat.eqb a x && Nat.eqb b y && Nat.eqb c z); congruence.
+Qed.
 
 Section Safe.
   Variable tgt : nat -> nat -> nat.
-  Notation tstep := (tstep true tgt).
+  Notation tstep := (tstep true true tgt).
 
   (* ---------------------------------------------------------------- monotone components *)
   Definition mono (g g' : G) : Prop :=
@@ -79,15 +95,16 @@ Section Safe.
     - destruct (join_check tgt t k g); mono_tac.
     - destruct (ipoint_step IPJoinEntry t g) eqn:E; proj; [eapply ipoint_mono; eauto|apply mono_refl].
     - destruct (ran g (tgt t k) || term g (tgt t k)); mono_tac.
-    - destruct (flag g t (tgt t k)); apply mono_refl.
+    - destruct (flag g t (tgt t k) (gen g t)); apply mono_refl.
     - destruct (ipoint_step IPSuspendPre t g) eqn:E; proj; [eapply ipoint_mono; eauto|mono_tac].
     - destruct (ipoint_step IPSuspendPost t g) eqn:E; proj; [eapply ipoint_mono; eauto|apply mono_refl].
     - destruct d; mono_tac.
     - mono_tac.
-    - destruct (cbs g t); mono_tac.
-    - destruct (cbs g t); mono_tac.
+    - destruct (cbs g t) as [|[j c] r]; mono_tac.
+    - destruct (cbs g t) as [|[j c] r]; mono_tac.
     - mono_tac.
-    - destruct (tl (cbs g t)); mono_tac.
+    - destruct (cbs g t) as [|[j c] r]; mono_tac.
+    - mono_tac.
     - mono_tac.
     - mono_tac.
   Qed.
@@ -130,7 +147,7 @@ Section Safe.
 
   (* ---------------------------------------------------------------- the invariant *)
   Definition in_exit (p : pcs) : bool :=
-    match p with PExit | PCbCall | PCbRes _ | PCbPop | PFree | PTerm | PDone => true | _ => false end.
+    match p with PExit | PCbCall | PCbRes _ | PCbPop | PFree | PTerm | PDone | PCbRun _ _ => true | _ => false end.
 
   Definition dtor_pc (p : pcs) (k : nat) : bool :=
     match p with
@@ -139,7 +156,7 @@ Section Safe.
     | _ => false end.
 
   Record SInv (g : G) (ls : locals L) : Prop := {
-    s_flag : forall j u, flag g j u = true -> bdone g u = true /\ cbrun g j u = true;
+    s_flag : forall j u c, flag g j u c = true -> bdone g u = true /\ cbrun g j u = true;
     s_ran : forall u, ran g u = true -> bdone g u = true;
     s_term : forall u, term g u = true -> bdone g u = true;
     s_exit : forall u, in_exit (pc (ls u)) = true -> bdone g u = true;
@@ -148,10 +165,13 @@ Section Safe.
     s_req : forall t, req g t = true -> exists r, In (EIntrReq r t) (log g);
     s_log : Forall (ev_ok g) (log g) }.
 
+  Lemma thrown_pc d p : pc (thrown d p) = PBody.
+  Proof. destruct d; reflexivity. Qed.
+
   Lemma ipoint_inv p t g g' :
     ipoint_step p t g = Some g' ->
     (forall x, req g x = true -> exists r, In (EIntrReq r x) (log g)) ->
-    hid g' = hid g /\ cbs g' = cbs g /\ ran g' = ran g /\ term g' = term g /\ flag g' = flag g /\
+    hid g' = hid g /\ cbs g' = cbs g /\ ran g' = ran g /\ term g' = term g /\ flag g' = flag g /\ gen g' = gen g /\
     en g' = en g /\ stopreq g' = stopreq g /\ ag g' = ag g /\ bdone g' = bdone g /\ cbrun g' = cbrun g /\
     (forall x, req g' x = true -> req g x = true) /\
     log g' = EIntrAt t p true :: log g /\ (exists r, In (EIntrReq r t) (log g)).
@@ -169,18 +189,20 @@ Section Safe.
   Ltac upd_case x t :=
     rewrite upd_pc in *; destruct (Nat.eqb_spec x t); subst.
 
-  Lemma ended_ok g g' (ls : locals L) t p :
-    SInv g ls -> ipoint_step p t g = Some g' -> SInv g' (upd ls t (ended)).
+  (* thread_interrupted thrown: the task continues in PBody (behind a handler, or with nothing left) *)
+  Lemma ended_ok g g' (ls : locals L) t p l' :
+    pc l' = PBody ->
+    SInv g ls -> ipoint_step p t g = Some g' -> SInv g' (upd ls t l').
   Proof.
-    intros I H. destruct (ipoint_inv _ _ _ _ H (s_req _ _ I))
-      as (Eh&Ec&Er&Et&Ef&Ee&Es&Ea&Eb&Ecb&Hreq&Hlog&Hr).
+    intros Hl' I H. destruct (ipoint_inv _ _ _ _ H (s_req _ _ I))
+      as (Eh&Ec&Er&Et&Ef&Eg&Ee&Es&Ea&Eb&Ecb&Hreq&Hlog&Hr).
     assert (M : mono g g') by (eapply ipoint_mono; eauto).
-    destruct I. constructor; rewrite ?Eh, ?Ec, ?Er, ?Et, ?Ef, ?Ee, ?Es, ?Ea, ?Eb, ?Ecb; auto.
-    - intros u. upd_case u t; [cbn; discriminate|auto].
-    - intros x k d. upd_case x t; [cbn; discriminate|].
+    destruct I. constructor; rewrite ?Eh, ?Ec, ?Er, ?Et, ?Ef, ?Eg, ?Ee, ?Es, ?Ea, ?Eb, ?Ecb; auto.
+    - intros u. upd_case u t; [rewrite Hl'; cbn; discriminate|auto].
+    - intros x k d. upd_case x t; [rewrite Hl'; cbn; discriminate|].
       intros Hx. destruct (s_det0 _ _ _ Hx) as [A B]. split; [auto|].
       unfold cb_over in *. rewrite Er, Et, Ecb. exact B.
-    - intros x k. upd_case x t; [cbn; discriminate|auto].
+    - intros x k. upd_case x t; [rewrite Hl'; cbn; discriminate|auto].
     - intros x Hx. apply Hreq in Hx. destruct (s_req0 _ Hx) as [r Hin]. exists r. rewrite Hlog. now right.
     - rewrite Hlog. constructor.
       + cbn. split; [reflexivity|]. destruct Hr as [r Hin]. exists r. rewrite Hlog. now right.
@@ -229,7 +251,7 @@ Section Safe.
     - (* PBody *)
       destruct (prog (ls t)) as [|a rest] eqn:Hprog.
       { intros M. proj. fin I t.
-        - intros j u Hf. destruct (s_flag0 _ _ Hf). rewrite set1_true. auto.
+        - intros j u c Hf. destruct (s_flag0 _ _ _ Hf). rewrite set1_true. auto.
         - intros u Hu. rewrite set1_true. auto.
         - intros u Hu. rewrite set1_true. auto.
         - intros u. upd_case u t; cbn; rewrite set1_true; auto.
@@ -260,6 +282,7 @@ Section Safe.
         * eapply ended_ok; eauto.
         * fin I t.
       + intros M. fin I t.
+      + intros M. fin I t.
     - (* PDtorStop *) intros M. proj. fin I t.
       + intros x k0. upd_case x t; cbn.
         * intros Hk. apply Nat.eqb_eq in Hk. subst. apply set1_same.
@@ -271,7 +294,7 @@ Section Safe.
         intros Hk. apply s_dtor0. rewrite Hpc. cbn. exact Hk.
     - (* PJoinIP *)
       destruct (ipoint_step IPJoinEntry t g) eqn:E; proj; intros M.
-      + eapply ended_ok; eauto.
+      + eapply ended_ok; eauto using thrown_pc.
       + fin I t. intros x k0. upd_case x t; cbn; eauto.
         intros Hk. apply s_dtor0. rewrite Hpc. cbn. exact Hk.
     - (* PJoinAdd *)
@@ -283,27 +306,27 @@ Section Safe.
         * intros x k0. upd_case x t; cbn; eauto.
           intros Hk. apply s_dtor0. rewrite Hpc. cbn. exact Hk.
       + fin I t.
-        * intros j u Hf. apply set2_false_true in Hf. auto.
+        * intros j u c Hf. apply set3_false_true in Hf. eauto.
         * intros x k0. upd_case x t; cbn; eauto.
           intros Hk. apply s_dtor0. rewrite Hpc. cbn. exact Hk.
     - (* PJoinChk *)
-      destruct (flag g t (tgt t k)) eqn:Hf; proj; intros M.
+      destruct (flag g t (tgt t k) (gen g t)) eqn:Hf; proj; intros M.
       + fin I t.
         * intros x k0 d0. upd_case x t; cbn; eauto.
-          intros Hx. inversion Hx; subst. destruct (s_flag0 _ _ Hf). unfold cb_over. auto.
+          intros Hx. inversion Hx; subst. destruct (s_flag0 _ _ _ Hf). unfold cb_over. auto.
         * intros x k0. upd_case x t; cbn; eauto.
           intros Hk. apply s_dtor0. rewrite Hpc. cbn. exact Hk.
       + fin I t. intros x k0. upd_case x t; cbn; eauto.
         intros Hk. apply s_dtor0. rewrite Hpc. cbn. exact Hk.
     - (* PJoinSusp *)
       destruct (ipoint_step IPSuspendPre t g) eqn:E; proj; intros M.
-      + eapply ended_ok; eauto.
+      + eapply ended_ok; eauto using thrown_pc.
       + fin I t.
         * intros x k0. upd_case x t; cbn; eauto.
           intros Hk. apply s_dtor0. rewrite Hpc. cbn. exact Hk.
     - (* PJoinWake *)
       destruct (ipoint_step IPSuspendPost t g) eqn:E; proj; intros M.
-      + eapply ended_ok; eauto.
+      + eapply ended_ok; eauto using thrown_pc.
       + fin I t. intros x k0. upd_case x t; cbn; eauto.
         intros Hk. apply s_dtor0. rewrite Hpc. cbn. exact Hk.
     - (* PJoinDet *)
@@ -321,23 +344,23 @@ Section Safe.
     - (* PIntrWake *) intros M. proj. fin I t.
     - (* PExit *)
       assert (Hb : bdone g t = true) by (apply (s_exit _ _ I); now rewrite Hpc).
-      destruct (cbs g t) eqn:Hc; proj; intros M.
+      destruct (cbs g t) as [|[j c] r] eqn:Hc; proj; intros M.
       + fin I t.
         * intros u Hu. apply set1_true in Hu. destruct Hu as [->|Hu]; auto.
       + fin I t.
-    - (* PCbCall *)
+    - (* PCbCall: code before the second fix, not reachable with pf = true *)
       assert (Hb : bdone g t = true) by (apply (s_exit _ _ I); now rewrite Hpc).
-      destruct (cbs g t) eqn:Hc; proj; intros M.
+      destruct (cbs g t) as [|[j c] r] eqn:Hc; proj; intros M.
       + fin I t.
       + fin I t.
-        * intros j u Hf. apply set2_true in Hf. rewrite set2_true.
-          destruct Hf as [[-> ->]|Hf]; [auto|]. destruct (s_flag0 _ _ Hf). auto.
+        * intros j0 u c0 Hf. apply set3_true in Hf. rewrite set2_true.
+          destruct Hf as [(-> & -> & ->)|Hf]; [auto|]. destruct (s_flag0 _ _ _ Hf). auto.
     - (* PCbRes *)
       assert (Hb : bdone g t = true) by (apply (s_exit _ _ I); now rewrite Hpc).
       intros M. proj. fin I t.
     - (* PCbPop *)
       assert (Hb : bdone g t = true) by (apply (s_exit _ _ I); now rewrite Hpc).
-      destruct (tl (cbs g t)) eqn:Hc; proj; intros M.
+      destruct (cbs g t) as [|[j c] r] eqn:Hc; proj; intros M.
       + fin I t.
         * intros u Hu. apply set1_true in Hu. destruct Hu as [->|Hu]; auto.
       + fin I t.
@@ -349,6 +372,11 @@ Section Safe.
       intros M. proj. fin I t.
       + intros u Hu. apply set1_true in Hu. destruct Hu as [->|Hu]; auto.
     - intros _; apply Hid. destruct (ls t); cbn in *; now subst.
+    - (* PCbRun *)
+      assert (Hb : bdone g t = true) by (apply (s_exit _ _ I); now rewrite Hpc).
+      intros M. proj. fin I t.
+      intros j0 u c0 Hf. apply set3_true in Hf. rewrite set2_true.
+      destruct Hf as [(-> & -> & ->)|Hf]; [auto|]. destruct (s_flag0 _ _ _ Hf). auto.
   Qed.
 
   Lemma init_SInv h0 n progs : SInv (g_init h0) (l_init n progs).
@@ -360,7 +388,7 @@ Section Safe.
   Qed.
 
   Theorem run_SInv h0 n progs sched :
-    let c := jrun true tgt h0 n progs sched in SInv (fst c) (snd c).
+    let c := jrun true true tgt h0 n progs sched in SInv (fst c) (snd c).
   Proof.
     unfold jrun. apply (run_inv _ _ _ tstep SInv).
     - intros [] t g ls I. now apply step_SInv.
@@ -369,7 +397,7 @@ Section Safe.
 
   (* ---------------------------------------------------------------- the theorems *)
   Theorem join_after_body h0 n progs sched t k :
-    let g := fst (jrun true tgt h0 n progs sched) in
+    let g := fst (jrun true true tgt h0 n progs sched) in
     In (EJoinRet t k) (log g) ->
     bdone g (tgt t k) = true /\ (ran g (tgt t k) = true \/ term g (tgt t k) = true \/ cbrun g t (tgt t k) = true).
   Proof.
@@ -379,7 +407,7 @@ Section Safe.
   Qed.
 
   Theorem not_joinable_after h0 n progs sched t k :
-    let g := fst (jrun true tgt h0 n progs sched) in
+    let g := fst (jrun true true tgt h0 n progs sched) in
     In (EJoinRet t k) (log g) \/ In (EDetach t k) (log g) -> hid g t k = false.
   Proof.
     intros g Hin. pose proof (run_SInv h0 n progs sched) as I. cbn zeta in I.
@@ -388,7 +416,7 @@ Section Safe.
   Qed.
 
   Theorem jthread_dtor_stops_and_joins h0 n progs sched t k :
-    let g := fst (jrun true tgt h0 n progs sched) in
+    let g := fst (jrun true true tgt h0 n progs sched) in
     In (EDtorRet t k) (log g) ->
     stopreq g (tgt t k) = true /\ bdone g (tgt t k) = true /\ hid g t k = false.
   Proof.
@@ -397,7 +425,7 @@ Section Safe.
   Qed.
 
   Theorem interrupt_only_when_enabled_and_requested h0 n progs sched t p e :
-    let g := fst (jrun true tgt h0 n progs sched) in
+    let g := fst (jrun true true tgt h0 n progs sched) in
     In (EIntrAt t p e) (log g) -> e = true /\ exists r, In (EIntrReq r t) (log g).
   Proof.
     intros g Hin. pose proof (run_SInv h0 n progs sched) as I. cbn zeta in I.
@@ -407,19 +435,19 @@ End Safe.
 
 (* ---------------------------------------------------------------- single-step facts *)
 Section Steps.
-  Variables (lp : bool) (tgt : nat -> nat -> nat).
+  Variables (lp pf : bool) (tgt : nat -> nat -> nat).
 
   (* joining a handle that is not joinable (second join, join after detach, default-constructed
      handle) is reported as invalid_status and changes nothing but the log *)
   Lemma double_join_error t k g rest :
     blocked (ag g t) = false -> hid g t k = false ->
-    tstep lp tgt tt t g (mkL PBody (AJoin k :: rest)) = (w_log g (EErr t k NotJoinable), mkL PBody rest).
+    tstep lp pf tgt tt t g (mkL PBody (AJoin k :: rest)) = (w_log g (EErr t k NotJoinable), mkL PBody rest).
   Proof. intros Hb Hh. unfold tstep, join_check. rewrite Hb. cbn. now rewrite Hh. Qed.
 
   (* joining oneself is reported as thread_resource_error; the handle stays joinable *)
   Lemma self_join_error t k g rest :
     blocked (ag g t) = false -> hid g t k = true -> tgt t k = t ->
-    tstep lp tgt tt t g (mkL PBody (AJoin k :: rest)) = (w_log g (EErr t k SelfJoin), mkL PBody rest).
+    tstep lp pf tgt tt t g (mkL PBody (AJoin k :: rest)) = (w_log g (EErr t k SelfJoin), mkL PBody rest).
   Proof.
     intros Hb Hh Ht. unfold tstep, join_check. rewrite Hb. cbn. rewrite Hh, Ht, Nat.eqb_refl. reflexivity.
   Qed.
@@ -427,18 +455,18 @@ Section Steps.
   (* interrupt_thread(u): the request touches only u's request flag, the wake-up only u's agent *)
   Lemma interrupt_is_local_req t u g rest :
     blocked (ag g t) = false -> en g u = true ->
-    tstep lp tgt tt t g (mkL PBody (AIntr u :: rest)) =
+    tstep lp pf tgt tt t g (mkL PBody (AIntr u :: rest)) =
       (w_log (w_req g (set1 (req g) u true)) (EIntrReq t u), mkL (PIntrWake u) rest).
   Proof. intros Hb He. unfold tstep. rewrite Hb. cbn. now rewrite He. Qed.
 
   Lemma interrupt_is_local_wake t u g p :
     blocked (ag g t) = false ->
-    tstep lp tgt tt t g (mkL (PIntrWake u) p) = (w_ag g (set1 (ag g) u (a_resume (ag g u))), mkL PBody p).
+    tstep lp pf tgt tt t g (mkL (PIntrWake u) p) = (w_ag g (set1 (ag g) u (a_resume (ag g u))), mkL PBody p).
   Proof. intros Hb. unfold tstep. rewrite Hb. reflexivity. Qed.
 
   (* while interruption is disabled a request is refused and nothing is recorded for u *)
   Lemma interrupt_refused_when_disabled t u g rest :
     blocked (ag g t) = false -> en g u = false ->
-    tstep lp tgt tt t g (mkL PBody (AIntr u :: rest)) = (w_log g (EIntrRefused t u), mkL PBody rest).
+    tstep lp pf tgt tt t g (mkL PBody (AIntr u :: rest)) = (w_log g (EIntrRefused t u), mkL PBody rest).
   Proof. intros Hb He. unfold tstep. rewrite Hb. cbn. now rewrite He. Qed.
 End Steps.
